@@ -27,6 +27,7 @@ func AwaitLock(string, uint64, Locker)   {}
 func AwaitRLock(string, uint64, RLocker) {}
 func AwaitLockAny(string, any)           {}
 func AwaitRLockAny(string, any)          {}
+func AwaitOnceAny(string, any)           {}
 func Fault(string, string) error         { return nil }
 func FS(string) any                      { return nil }
 func H(string) uint64                    { return 0 }
